@@ -802,3 +802,34 @@ Definition ex_well_formed : list stmt :=
 Definition ex_undeclared_interp : list stmt :=
   [SFun None nm_f [nm_p]
      [SExpr None (ECall (EVar n_shout None) [EArr [EInterp [SegLit [97; 32]; SegVar nm_x None]]] None)] None 0 0].
+
+(* history of a variable / signature of a function (DESIGN: strengthening round) *)
+Definition nm_g : name := [103].
+Definition str_s : expr := EStr [115].
+(* make x get true  make x get 0  if to say (x) start end : the latest `make` gives the type *)
+Definition ex_redeclared_ill : list stmt :=
+  [SMake None nm_x None (EBool true); SMake None nm_x None num0; SIf None (EVar nm_x None) [] None].
+(* make x get "s"  make x get 0  shout(x minus 0) *)
+Definition ex_redeclared_ok : list stmt :=
+  [SMake None nm_x None str_s; SMake None nm_x None num0;
+   SExpr None (ECall (EVar n_shout None) [EBin Minus (EVar nm_x None) num0] None)].
+(* make x get 0  x get "s"  shout(x minus 0) : reassignment keeps the declared type *)
+Definition ex_reassigned_ok : list stmt :=
+  [SMake None nm_x None num0; SSet None nm_x None str_s;
+   SExpr None (ECall (EVar n_shout None) [EBin Minus (EVar nm_x None) num0] None)].
+(* do g() start return "s" end
+   do f(p) start if to say (p) start shout(0) end if not so start do g() start return 0 end return g() end end
+   shout(f(false) times 0) *)
+Definition ex_hidden_in_else : list stmt :=
+  [SFun None nm_g [] [SRet None (Some str_s)] None 0 0;
+   SFun None nm_f [nm_p]
+     [SIf None (EVar nm_p None)
+        [SExpr None (ECall (EVar n_shout None) [num0] None)]
+        (Some [SFun None nm_g [] [SRet None (Some num0)] None 0 0;
+               SRet None (Some (ECall (EVar nm_g None) [] None))])] None 0 0;
+   SExpr None (ECall (EVar n_shout None) [EBin Times (ECall (EVar nm_f None) [EBool false] None) num0] None)].
+(* do g() start return "s" end  do f() start return g() end  shout(f() times 0) : the outer g is meant *)
+Definition ex_outer_result_ill : list stmt :=
+  [SFun None nm_g [] [SRet None (Some str_s)] None 0 0;
+   SFun None nm_f [] [SRet None (Some (ECall (EVar nm_g None) [] None))] None 0 0;
+   SExpr None (ECall (EVar n_shout None) [EBin Times (ECall (EVar nm_f None) [] None) num0] None)].
